@@ -64,9 +64,11 @@ type World struct {
 	CurL        map[int][]Pair
 	PrevL       map[int][]Pair
 	step        int
-	wantVE      bool // C13: the content of ValidationErrors() is part of the isolation observation
-	touchErrors bool // C02: exercise the error API on every returned error
-	sched       bool // schedsim: several worlds run on different goroutines; do not touch verifrt's global counters
+	quiet       bool    // unobserved twin run: exec only
+	limits      []int64 // statement budget per operation index (recorded by the observed world, reused by the unobserved one)
+	wantVE      bool    // C13: the content of ValidationErrors() is part of the isolation observation
+	touchErrors bool    // C02: exercise the error API on every returned error
+	sched       bool    // schedsim: several worlds run on different goroutines; do not touch verifrt's global counters
 }
 
 func newWorld(cfg Config) *World {
@@ -245,6 +247,16 @@ func (w *World) exec(i int, op Op) (ev Event) {
 	if !w.sched {
 		rt.Count = 0
 		rt.Limit = stepLimit(argLen)
+		if w.quiet {
+			// no reads in the unobserved world: take the budget the observed world computed for the
+			// same operation (it knew the length of the current serialization), with slack
+			rt.Limit = 0
+			if i < len(w.limits) {
+				rt.Limit = 4 * w.limits[i]
+			}
+		} else {
+			w.limits = append(w.limits, rt.Limit)
+		}
 	}
 	defer func() {
 		if !w.sched {
@@ -497,9 +509,59 @@ func (w *World) refresh() (panicked string) {
 		w.Cur[id] = o
 	}
 	for id, sh := range w.S {
-		w.CurL[id] = readList(sh.SP)
+		// one public read first: an implementation is free to synchronise the list lazily on access,
+		// and only what public methods show counts; the reflection read then sees what they see
+		w.CurL[id] = readListSynced(sh.SP)
 	}
 	return ""
+}
+
+// unobservedRun executes the plan on a fresh world without any reads in between and compares the
+// final observations with those of the observed world w.
+func unobservedRun(plan *Plan, w *World, chk Checker) *Failure {
+	b := newWorld(plan.Cfg)
+	b.quiet = true
+	b.limits = w.limits
+	_, isC02 := chk.(*c02Checker)
+	for i, op := range plan.Ops {
+		ev := b.exec(i, op)
+		if ev.Panic != "" || ev.Hang {
+			if isC02 {
+				f := fail("C02.panic", "op", op.String(), "config", b.Cfg.String(), "frame", ev.Panic, "msg", ev.PanicMsg, "where", "only when no getter is read between the operations")
+				if ev.Hang {
+					f = fail("C02.hang", "op", op.String(), "config", b.Cfg.String(), "where", "only when no getter is read between the operations")
+				}
+				return &f
+			}
+			return nil
+		}
+	}
+	if p := b.refresh(); p != "" {
+		return nil
+	}
+	for _, id := range w.uids() {
+		bo, ok := b.Cur[id]
+		if !ok {
+			f := fail(plan.Prop+".unobserved-run-differs", "object", fmt.Sprintf("u%d", id), "why", "exists only when the oracle reads between operations")
+			return &f
+		}
+		ao := w.Cur[id]
+		if ao.Key() != bo.Key() {
+			fld, x, y := diffPrimary(ao.Primary(), bo.Primary())
+			if fld == "" {
+				fld, x, y = "derived accessors", ao.Key(), bo.Key()
+			}
+			f := fail(plan.Prop+".unobserved-run-differs", "object", fmt.Sprintf("u%d", id), "field", fld, "with-reads-between-operations", q(x), "without", q(y))
+			return &f
+		}
+	}
+	for _, id := range w.sids() {
+		if bl, ok := b.CurL[id]; ok && !pairsExact(bl, w.CurL[id]) {
+			f := fail(plan.Prop+".unobserved-run-differs", "object", fmt.Sprintf("s%d", id), "with-reads-between-operations", pairsString(w.CurL[id]), "without", pairsString(bl))
+			return &f
+		}
+	}
+	return nil
 }
 
 // Failure is one oracle clause that fired.
@@ -698,6 +760,26 @@ func runWorld(plan *Plan, mk func() Checker, kf *KnownFindings, keepLog bool) (r
 	}
 	if e, ok := chk.(interface{ Exempt() int }); ok {
 		res.Exempt = e.Exempt()
+	}
+	// ---- the unobserved twin run ("observe" fault in its strongest form): the oracles above read
+	// every getter of every object (and one public read on every parameter handle) after every
+	// event, which would flush any lazily maintained state and hide bugs that only bite a caller who
+	// does not look in between. The same plan is therefore executed again on a fresh world with NO
+	// reads between the operations; at the end both worlds must show the same observations.
+	// Reads have no semantic effect in any correct implementation (lazy or not), so a difference is
+	// never a false alarm.
+	st, _ := chk.(interface{ Stop() bool })
+	stopped := st != nil && st.Stop()
+	if res.Viol == nil && res.Aborted == "" && !stopped && len(plan.Ops) > 1 {
+		if f := unobservedRun(plan, w, chk); f != nil {
+			if v := triage([]Failure{*f}, kf, plan.Prop, &res, len(plan.Ops)-1); v != nil {
+				res.Viol = v
+				if keepLog {
+					res.Log = append(res.Log, fmt.Sprintf("     VIOLATION %s %v", v.Clause, v.Witness))
+				}
+			}
+		}
+		res.Faults["observe(whole run re-executed without any oracle reads)"]++
 	}
 	res.Hash = h.h
 	return
